@@ -167,7 +167,7 @@ def kvRun (backend : Str) (ops : List JVal) : List Str :=
       if k = S "r" then
         (b, kv, out ++ [agree (bresStr (R.ops.read b key 0 0)) (match kv.read key with | some d => hexEncode d | none => S "err")])
       else if k = S "l" then
-        (b, kv, out ++ [agree (JVal.arr ((sortStrsD (R.ops.list b key)).map jstr)).render (JVal.arr ((kv.list key).map jstr)).render])
+        (b, kv, out ++ [agree (JVal.arr ((sortStrsD (R.ops.list b key)).map jstr)).render (JVal.arr ((sortStrsD (kv.list key)).map jstr)).render])
       else (b, kv, out ++ [S "bad"])
     | .arr [.str k, .str key, off, len] =>
       if k = S "rr" then
